@@ -171,6 +171,10 @@ func runAccessor(r *report.Run, c *Case) *report.Failure {
 	}
 	key := c.Fork + ":" + c.Chain
 	r.Class("accessor:" + ch.Leaf().Kind + ":" + o.note)
+	if o.near {
+		r.Class("accessor:set:near-write(one field of the stored container changed)")
+		r.Hit("set:near-write")
+	}
 	if strings.HasPrefix(o.note, "skipped") {
 		return nil
 	}
@@ -810,7 +814,7 @@ func TestCheck(t *testing.T) {
 			}
 		}
 	}
-	r.Mandatory("freeview:Withdrawal", "freeview:BLSToExecutionChange", "freeview:SignedBLSToExecutionChange", "freeview:HistoricalBatch")
+	r.Mandatory("set:near-write", "freeview:Withdrawal", "freeview:BLSToExecutionChange", "freeview:SignedBLSToExecutionChange", "freeview:HistoricalBatch")
 	r.Mandatory("copies:two-mutations-on-each-side", "copies:sim", "sim:block-while-copies-held", "sim:skip-while-copies-held", "sim:accessor-write-on-copy-of-chain-state",
 		"error-path:oob-error", "error-path:at-limit-error")
 	r.S.Extra["table_rows_per_fork"] = perFork
